@@ -85,7 +85,7 @@ _HOSTS = ['example.com', 'EXAMPLE.Com', 'b\xfccher.example', 'xn--bcher-kva.exam
           '[::1]', '[0:0:0:0:0:0:0:1]', '[2001:DB8::A]', 'example.com.', '0x7F\u30020\u30020\u30021', '127\uff0e0\uff0e0\uff0e1', 'ex\uff61ample.com',
           '\uff11\uff12\uff17.0.0.1', 'E\u0301xample.com', '010.1.1.1', '1.2.3', 'localhost', 'a-b.example', 'EX%41MPLE.com', 'example\u3002com',
           '0300.0250.0.01', '\uff10\uff587F.0.0.1', '\uff10177.0.0.1', '\uff12130706433', '0x7f.0.0\uff0e1', '[FE80::1%ETH0]', '[fe80::1%25eth0]']
-_USERINFO = ['', 'user@', 'User:Pass@', 'u%40x:p%3Aq@', '%2541@', 'u:%25%34%31@', ':p@', 'a b@', 'u%00@']
+_USERINFO = ['', 'user@', 'User:Pass@', 'u%40x:p%3Aq@', '%2541@', 'u:%25%34%31@', ':p@', 'a b@', 'u%00@', 'user%0A@', 'u:pw%0A@', 'u%0D:p@', 'u%09@', '%0Au@', 'u:p%20@']
 _SEGS = ['a', '.', '..', '', '%2e', '%2E', '%2F', '%7e', '~', ' ', '\xe9', '%C3%A9', 'a%2fb', '%', '%zz', 'A', '%41', 'a;b', '+']
 _QUERIES = ['', '?', '?a=b', '?a b', '?a+b', '?%2f%2F', '?\xe9', '?a=1#f', '#frag', '?a=1&a=2', '?%', '?q=a%20b']
 _PORTS = ['', ':80', ':443', ':21', ':8080', ':0080', ':65535', ':']
@@ -122,6 +122,30 @@ def _control_chars(slot, cc_i, enc_i):
         return True
     hit('accepted')
     return r
+
+
+_ESC_TEXTS = ['caf\xe9 cr\xe8me', '\xe9', 'a b', 'a+b \xfc', '\u20ac 5', 'x\xa0y', 'na\xefve/\xe9t\xe9 ', '~\xe9 ']
+
+
+def _escape_equivalence(text_i, enc_i, where):
+    """Spellings that differ only in escaping normalise alike: raw non-ASCII text (encoded with the document encoding) and the same
+    bytes written as percent escapes give one normal form - in the path and in the query, with and without spaces."""
+    text = pick(_ESC_TEXTS, text_i)
+    enc = pick(['utf-8', 'latin-1', 'cp1252', 'shift_jis'], enc_i)
+    try:
+        raw_bytes = text.encode(enc)
+    except UnicodeError:
+        return True
+    escaped = ''.join(chr(b) if (chr(b).isalnum() and b < 128) or chr(b) in '/~+' else ('%%%02X' % b if b != 0x20 else ' ') for b in raw_bytes)
+    tmpl = pick(['http://example.com/p/{}', 'http://example.com/?q={}', 'http://example.com/s?a=1&b={}&c=2'], where)
+    try:
+        a = N(tmpl.format(text), enc).url
+        b = N(tmpl.format(escaped), enc).url
+    except ValueError:
+        hit('rejected')
+        return True
+    hit('accepted')
+    return a == b and a.isascii()
 
 
 def _respell(si, hi, s1, s2, nseg, qi, t, pos):
@@ -321,6 +345,12 @@ HARNESSES = [
       doc='each of the 33 C0 control / space characters, DEL and six invisible or white-space code points (NEL, NBSP, SHY, LS, '
           'ideographic space, BOM) at 13 structural positions (host label, start/end of host, path, query, user, password, scheme, port, '
           'IPv6 literal and zone, fragment, IDN label) under utf-8 and latin-1: rejected, or the normal form is stable and canonical'),
+    H('escape_equivalence', '_escape_equivalence', 'text_i: int, enc_i: int, where: int',
+      pre=['0 <= text_i < %d and 0 <= enc_i <= 3 and 0 <= where <= 2' % len(_ESC_TEXTS)],
+      timeout={'quick': 200, 'thorough': 400}, samples=[(0, 1, 1), (1, 0, 0), (4, 2, 2)], need=['accepted'],
+      funcs=['wpull/url.py:normalize_path', 'wpull/url.py:normalize_query', 'wpull/url.py:percent_encode', 'wpull/url.py:percent_encode_plus'],
+      doc='8 texts with non-ASCII characters and spaces x 4 document encodings (utf-8, latin-1, cp1252, shift_jis) x path / query '
+          'position: the raw spelling and the percent-escaped spelling of the same bytes have the same, pure-ASCII, normal form'),
     H('respell', '_respell', 'si: int, hi: int, s1: int, s2: int, nseg: int, qi: int, t: int, pos: int',
       pre=['0 <= si < %d and 0 <= hi < %d and 0 <= s1 < %d and 0 <= s2 < %d and 0 <= nseg <= 2 and 0 <= qi < %d and 0 <= t <= 10 and 0 <= pos <= 2' % (
           len(_SCHEMES), len(_HOSTS), len(_SEGS), len(_SEGS), len(_QUERIES))],
